@@ -698,6 +698,156 @@ def run_step(step, network, cache_uri):
     return out
 
 
+# ------------------------------------------------------------------ the shared HTTP layer: REAL client classes, scripted transport
+# request line:  <network> http <method>/<prov>+<prov>+..      prov = <name>:<prio>:<status|T|C>:<body kind>
+#   name  bs blockstream | mp mempool | sm blocksmurfer   (the repository's own client classes, through BaseClient.request)
+#   status an HTTP status code, or T (requests Timeout raised) / C (requests ConnectionError raised)
+#   body  ok (a valid answer in that provider's format, value tagged with the provider) | empty | null | list | obj | queued
+#         | badjson | html
+# answer:  <ret json | FAIL | X:<exception>> R=<names with a result> E=<names with an error> C=<providers asked, in order>
+from bitcoinlib.services import baseclient as BC          # noqa: E402
+import requests as _rq                                    # noqa: E402
+
+HTTP_PROV = {'bs': ('blockstream', 'BlockstreamClient', 'http://bs.test/api/'),
+             'mp': ('mempool', 'MempoolClient', 'http://mp.test/api/'),
+             'sm': ('blocksmurfer', 'BlocksmurferClient', 'http://sm.test/api/')}
+HTTP_IDX = {'bs': 0, 'mp': 1, 'sm': 2}
+HTTP_PLAN = {}      # name -> (status, body kind)
+HTTP_STATE = {'phase': 'init', 'method': ''}
+HTTP_CALLS = []
+HTTP_BODIES = {'empty': '', 'null': 'null', 'list': '[]', 'obj': '{}', 'queued': '{"status": "queued"}',
+               'badjson': '{"result": ', 'html': '<html><body><h1>Service temporarily unavailable</h1></body></html>'}
+HTTP_ADDR = '1A1zP1eP5QGefi2DMPTfTL5SLmv7DivfNa'
+HTTP_TXID = 'c3' * 32
+HTTP_RAW = '0100000001' + 'ab' * 20
+
+
+def http_ok_body(name, method):
+    """a valid answer of provider `name` to `method`, in the format that provider documents; the value carries the provider"""
+    i = HTTP_IDX[name]
+    if method == 'blockcount':
+        return json.dumps({'blockcount': 800000 + i}) if name == 'sm' else str(800000 + i)
+    if method == 'getrawtransaction':
+        raw = HTTP_RAW + '%02x' % i
+        return json.dumps({'raw_hex': raw, 'txid': HTTP_TXID}) if name == 'sm' else raw
+    if method == 'sendrawtransaction':
+        txid = 'ab' * 31 + '%02x' % i
+        return json.dumps({'txid': txid}) if name == 'sm' else txid
+    if method == 'mempool':
+        return json.dumps(['d%d' % i * 32, 'e%d' % i * 32])
+    if method == 'estimatefee':
+        if name == 'bs':
+            return json.dumps({'1': 30.5 + i, '2': 21.0 + i, '3': 11.0 + i, '6': 5.0, '25': 2.0, '144': 1.0})
+        if name == 'mp':
+            return json.dumps({'fastestFee': 30 + i, 'halfHourFee': 20 + i, 'hourFee': 10 + i, 'economyFee': 4, 'minimumFee': 2})
+        return json.dumps({'blocks': 3, 'estimated_fee_sat_kb': 15000 + i})
+    if method == 'getbalance':
+        if name == 'sm':
+            return json.dumps({'address': HTTP_ADDR, 'balance': 5000 + i})
+        return json.dumps({'address': HTTP_ADDR, 'chain_stats': {'funded_txo_count': 3, 'funded_txo_sum': 9000 + i,
+                                                                 'spent_txo_count': 1, 'spent_txo_sum': 2000, 'tx_count': 4},
+                           'mempool_stats': {'funded_txo_count': 0, 'funded_txo_sum': 0, 'spent_txo_count': 0,
+                                             'spent_txo_sum': 0, 'tx_count': 0}})
+    raise ValueError(method)
+
+
+def _http_response(status, text, url):
+    r = _rq.models.Response()
+    r.status_code = status
+    r._content = text.encode('utf-8')
+    r.encoding = 'utf-8'
+    r.url = url
+    r.reason = 'scripted'
+    return r
+
+
+def _http_transport(kind):
+    def call(url, **kw):
+        name = [n for n, v in HTTP_PROV.items() if url.startswith(v[2])]
+        if not name:
+            raise _rq.exceptions.ConnectionError('unknown host ' + url)
+        name = name[0]
+        if HTTP_STATE['phase'] == 'init':
+            return _http_response(200, json.dumps({'blockcount': 100}) if name == 'sm' else '100', url)
+        HTTP_CALLS.append(name)
+        status, body = HTTP_PLAN[name]
+        if status == 'T':
+            raise _rq.exceptions.ReadTimeout('scripted timeout')
+        if status == 'C':
+            raise _rq.exceptions.ConnectionError('scripted connection error')
+        text = http_ok_body(name, HTTP_STATE['method']) if body == 'ok' else HTTP_BODIES[body]
+        return _http_response(int(status), text, url)
+    return call
+
+
+class _FakeRequests(object):
+    exceptions = _rq.exceptions
+    get = staticmethod(_http_transport('get'))
+    post = staticmethod(_http_transport('post'))
+
+
+def http_token(v):
+    try:
+        return json.dumps(v, sort_keys=True, separators=(',', ':')).replace(' ', '_')
+    except Exception:
+        return 'T:' + type(v).__name__
+
+
+def run_http(step, network):
+    method, provs = step.split('/')
+    d = {}
+    HTTP_PLAN.clear()
+    for t in provs.split('+'):
+        name, prio, status, body = t.split(':')
+        mod, cls, url = HTTP_PROV[name]
+        d[name] = dict(provider=mod, network=network, client_class=cls, provider_coin_id='', url=url, api_key='',
+                       priority=int(prio), denominator=1, network_overrides=None, timeout=0)
+        HTTP_PLAN[name] = (status, body)
+    with open(os.path.join(DATA, 'providers.json'), 'w') as f:
+        json.dump(d, f)
+    FRANDOM.tb = [0.5]
+    FRANDOM.n = 0
+    real = BC.requests
+    BC.requests = _FakeRequests
+    srv = None
+    try:
+        HTTP_STATE.update(phase='init', method=method)
+        del HTTP_CALLS[:]
+        try:
+            srv = Service(network=network, cache_uri='')
+        except Exception as e:
+            return 'INITERR ' + type(e).__name__
+        HTTP_STATE['phase'] = 'query'
+        CLOCK[0] += 60
+        try:
+            if method == 'blockcount':
+                ret = srv.blockcount()
+            elif method == 'getrawtransaction':
+                ret = srv.getrawtransaction(HTTP_TXID)
+            elif method == 'sendrawtransaction':
+                ret = srv.sendrawtransaction(HTTP_RAW)
+                ret = ret['txid'] if isinstance(ret, dict) and 'txid' in ret else ret
+            elif method == 'mempool':
+                ret = srv.mempool()
+            elif method == 'estimatefee':
+                ret = srv.estimatefee(3)
+            elif method == 'getbalance':
+                ret = srv.getbalance([HTTP_ADDR])
+            else:
+                return 'BADREQ'
+            ret = http_token(ret)
+        except ServiceError:
+            ret = 'FAIL'
+        except Exception as e:
+            ret = 'X:' + type(e).__name__
+        return '%s R=%s E=%s C=%s' % (ret, ','.join(srv.results.keys()) or '-', ','.join(srv.errors.keys()) or '-',
+                                      ','.join(HTTP_CALLS) or '-')
+    finally:
+        BC.requests = real
+        if srv is not None:
+            close(srv)
+
+
 def clear_cache():
     if os.path.exists(CACHE_FILE):
         con = sqlite3.connect(CACHE_FILE)
@@ -724,6 +874,14 @@ def do_case(line):
         uri = CACHE_URI
     elif mode == 'off':
         uri = ''
+    elif mode == 'http':
+        outs = []
+        for st in toks[2:]:
+            try:
+                outs.append(run_http(st, network))
+            except Exception as e:
+                outs.append('CRASH %s %s' % (type(e).__name__, str(e)[:80].replace('\n', ' ')))
+        return ' ; '.join(outs)
     elif mode in ('xfile', 'xoff'):
         if XKEYS.get('net') != network:
             XKEYS.clear()
